@@ -4,8 +4,8 @@ _A = ["--watchdog", "60"]
 PROP = dict(
     harnesses={"c05_thread_pool": dict(sources=["harness/c05_thread_pool.cpp"])},
     legs=[
-        dict(name="tsan", harness="c05_thread_pool", flavour="tsan", mode="mix", quick=800, thorough=12000, concurrent=True, args=_A, case_timeout=180),
-        dict(name="asan", harness="c05_thread_pool", flavour="asan", mode="mix", quick=1600, thorough=40000, seed_offset=104729, concurrent=True, args=_A, case_timeout=180),
+        dict(name="tsan", harness="c05_thread_pool", flavour="tsan", mode="mix", quick=3000, thorough=30000, concurrent=True, args=_A, case_timeout=180),
+        dict(name="asan", harness="c05_thread_pool", flavour="asan", mode="mix", quick=6000, thorough=100000, seed_offset=104729, concurrent=True, args=_A, case_timeout=180),
     ],
     rule=("each case: a ThreadPool (min 0-3, max 1-6) or a WorkThread on a running loop (epoll or select); a seeded script of 1-200 steps "
           "executed on the loop thread as a chain of runNext tasks: execute (priority -3..3, with/without completion callback; bodies that return "
